@@ -71,7 +71,7 @@ func genSrc(rng *rand.Rand, k int) srcCase {
 	a, b, c := 1+rng.Intn(9), 1+rng.Intn(9), 10*(1+rng.Intn(9))
 	kd := srcKinds[rng.Intn(len(srcKinds))]
 	agg := srcKinds[rng.Intn(len(srcKinds)-1)] // not int
-	switch k % 26 {
+	switch k % 29 {
 	case 0: // F04-4: a variable declared from a literal in a loop body, captured by a closure
 		return srcCase{"closure-captures-literal-in-loop", "", srcHead + fmt.Sprintf(`func main() {
 	var fs []func() string
@@ -265,15 +265,14 @@ func main() {
 `, agg.typ, strings.ReplaceAll(agg.lit(a, 77777), "77777", "i"), agg.typ, n, strings.ReplaceAll(agg.lit(b, 77777), "77777", "i*10+j"),
 			rng.Intn(2*n), agg.mut("(*x)", c))}
 	case 12: // F04-13 (repaired by bb375fd): key-only / blank-value range over a nil pointer to an array; with a value it panics
-		// (not `for i, _ := range pn`: a blank VALUE variable is the open finding F04-17, template below)
-		form := []string{"for i := range pn {\n\t\tfmt.Println(i)", "for range pn {\n\t\tfmt.Println(\"x\")",
-			"for i, v := range pn {\n\t\tfmt.Println(i, v)"}[rng.Intn(3)]
+		form := []string{"for i := range pn {\n\t\tfmt.Println(i)", "for i, _ := range pn {\n\t\tfmt.Println(i)", "for range pn {\n\t\tfmt.Println(\"x\")",
+			"for i, v := range pn {\n\t\tfmt.Println(i, v)"}[rng.Intn(4)]
 		return srcCase{"range-nil-pointer-to-array", "", srcHead + fmt.Sprintf(`func main() {
 	defer func() { fmt.Println("recovered:", recover() != nil) }()
 	var pn *[%d]%s
 	%s
 	}
-	fmt.Println("done")
+	fmt.Println("done", len(pn), cap(pn))
 }
 `, n, kd.typ, form)}
 	case 13: // F04-14 (repaired by daee744): `v, ok := x.(T)` in a loop body with failing assertions, &v kept, closures over ok
@@ -397,9 +396,9 @@ func main() {
 	fmt.Println(n)
 }
 `, n+1)}
-	case 19: // open finding F04-17: a blank VALUE variable of a range clause is stored over the first variable of the frame
+	case 19: // F04-17 (repaired by 2e3bfaf): a blank VALUE variable of a range clause is stored over the first variable of the frame
 		src := []string{"s", "a", "&a", "s[:1]"}[rng.Intn(4)]
-		return srcCase{"range-blank-value-variable", "range-blank-value-var", srcHead + fmt.Sprintf(`func main() {
+		return srcCase{"range-blank-value-variable", "", srcHead + fmt.Sprintf(`func main() {
 	x := %d
 	s := []int{%d, %d}
 	a := [2]int{%d, %d}
@@ -409,8 +408,8 @@ func main() {
 	fmt.Println("done", x, s, a)
 }
 `, c, a, b, b, a, src)}
-	case 20: // open finding F04-18: len / cap of a nil pointer to an array are constants of the type
-		return srcCase{"len-of-nil-pointer-to-array", "len-nil-ptr-array", srcHead + fmt.Sprintf(`func main() {
+	case 20: // F04-18 (repaired by 9df0813): len / cap of a nil pointer to an array are constants of the type
+		return srcCase{"len-of-nil-pointer-to-array", "", srcHead + fmt.Sprintf(`func main() {
 	var pn *[%d]%s
 	fmt.Println(%s(pn))
 }
@@ -455,8 +454,8 @@ func main() {
 	fmt.Println(r, s)
 }
 `, a, b, c, a, b, c)}
-	case 22: // open finding F04-19: `return b, a` with named results a, b
-		return srcCase{"return-permutes-named-results", "return-named-results-permuted", srcHead + fmt.Sprintf(`func sw() (a, b int) {
+	case 22: // F04-19 (repaired by 8544122): `return b, a` with named results a, b
+		return srcCase{"return-permutes-named-results", "", srcHead + fmt.Sprintf(`func sw() (a, b int) {
 	a, b = %d, %d
 	return b, a
 }
@@ -471,8 +470,8 @@ func main() {
 	fmt.Println(rot())
 }
 `, a, b+10, c)}
-	case 23: // open finding F04-20: the named result of a call aliases the variable the call is assigned to
-		return srcCase{"call-result-aliases-destination", "call-result-aliases-dest", srcHead + fmt.Sprintf(`func f(p *P) (r P) {
+	case 23: // F04-20 (repaired by 1b5ab85): the named result of a call aliases the variable the call is assigned to
+		return srcCase{"call-result-aliases-destination", "", srcHead + fmt.Sprintf(`func f(p *P) (r P) {
 	r.X = %d
 	r.Y = p.X
 	return
@@ -484,9 +483,9 @@ func main() {
 	fmt.Println(g)
 }
 `, c, a, b)}
-	case 24: // open finding F04-21: a positional literal operand `pa[i].f` with pa a pointer to an array
+	case 24: // F04-21 (repaired by 15ed387): a positional literal operand `pa[i].f` with pa a pointer to an array
 		lit := []string{"P{pa[1].Y, 8}", "P{(*pa)[1].Y, 8}", "[2]int{pa[1].Y, 0}", "[]int{pa[0].X}", "*(T{&b[1]}.Pt)", "*(T{&(*b)[0]}.Pt)"}[rng.Intn(6)]
-		return srcCase{"literal-operand-pointer-index-selector", "lit-operand-ptrarray-index-selector", srcHead + fmt.Sprintf(`type T struct{ Pt *int }
+		return srcCase{"literal-operand-pointer-index-selector", "", srcHead + fmt.Sprintf(`type T struct{ Pt *int }
 
 func main() {
 	a := [3]P{{%d, 3}, {3, %d}, {4, 3}}
@@ -497,6 +496,38 @@ func main() {
 	fmt.Println(x)
 }
 `, a, b, c, lit)}
+	case 25: // open finding F04-22: the results of a call assigned to two map entries
+		return srcCase{"call-results-to-map-entries", "call-results-to-map-entries", srcHead + fmt.Sprintf(`func f() (int, int) { return %d, %d }
+
+func main() {
+	mp := map[string]int{}
+	mp["a"], mp["b"] = f()
+	fmt.Println(mp)
+}
+`, a, b)}
+	case 26: // open finding F04-23: a host call among the operands of a return that permutes the named results
+		return srcCase{"return-host-call-and-named-result", "return-bincall-named-results", srcHead + fmt.Sprintf(`func g() (a string, b string) {
+	a, b = "x%d", "y%d"
+	return fmt.Sprint(b), a
+}
+
+func main() {
+	fmt.Println(g())
+}
+`, a, b)}
+	case 27: // open finding F04-24: a positional literal operand `(*pa)[lo:hi]`
+		lit := []string{"T{1, (*pa)[0:]}", "[][]int{(*pa)[:2]}", "T{2, (*pa)[1:2]}"}[rng.Intn(3)]
+		return srcCase{"literal-operand-slice-of-deref", "lit-operand-slice-of-deref", srcHead + fmt.Sprintf(`type T struct {
+	A  int
+	Sl []int
+}
+
+func main() {
+	pa := &[3]int{%d, %d, 9}
+	x := %s
+	fmt.Println(x)
+}
+`, a, b, lit)}
 	default: // 26ad67e: local blank assignments get their own slots; blank range variables
 		return srcCase{"blank-assignments-and-blank-loop-variables", "", srcHead + fmt.Sprintf(`func main() {
 	x, s, f := %s, "s", func() int { return %d }
